@@ -26,8 +26,8 @@ def spec(s, plus_on_ref):
 
 
 def in_domain(s):
-    # outside: lone surrogates only
-    return not any(0xD800 <= ord(c) <= 0xDFFF for c in s)
+    # every str is in the domain (lone surrogates included: they are non-ASCII, non-whitespace characters like any other)
+    return isinstance(s, str)
 
 
 def check_against_spec(s):
@@ -72,6 +72,49 @@ def eval_probe():
     for _ in range(300):            # worst-case surroundings at depth 100 must still parse
         e = "".join(r.choice(["(", "(False or ", "(False and ", "(False or False and ", "(False and False or False and "]) for _ in range(100))
         if ev(e + "False" + ")" * 100) is not False: return "depth-100 skeleton refused: " + e[:80]
+    return "ok"
+
+
+# first nesting depth n at which  shape*n + "MIT" + ")"*n  is rejected, as recorded for the CPython versions this was run on.
+# The model only says "interpreter dependent" for 101..200 (LicModel.py_eval EvLimit); these numbers pin the band per shape, so that a
+# drift inside it (another CPython, or a change of what the code feeds to eval) is visible.
+DEPTH_SHAPES = ["(", "(MIT or ", "(MIT and ", "(MIT or gd and ", "(MIT WITH llgpl or gd and ", "(gd and MIT or ISC and "]
+DEPTH_RECORDED = {(3, 12): [201, 200, 200, 187, 187, 187]}
+
+
+def first_reject(accepts, lo=1, hi=230):
+    """(first n in lo..hi with not accepts(n), monotone?)"""
+    res = [accepts(n) for n in range(lo, hi + 1)]
+    if all(res): return None, True
+    k = res.index(False)
+    return lo + k, not any(res[k:])
+
+
+def depth_probe():
+    """Exact first-reject nesting depth for six fixed shapes: through canonicalize_license_expression and through eval() on the
+    skeleton the code builds for that shape; both must agree, be monotone, lie in 101..201, and equal the recorded values."""
+    got = []
+    for pre in DEPTH_SHAPES:
+        def via_code(n): return run(pre * n + "MIT" + ")" * n) is not None
+        sk = " ".join({"or": "or", "and": "and", "with": "or", "(": "(", ")": ")"}.get(t, "False") for t in tokenize(alower(pre))) + " "
+        def via_eval(n):
+            try: return eval(sk * n + "False" + " )" * n) is False
+            except Exception: return False
+        a, ma = first_reject(via_code); b, mb = first_reject(via_eval)
+        if not (ma and mb): return "acceptance is not monotone in the nesting depth for shape %r" % pre
+        if a != b: return "shape %r: the function first rejects depth %r, eval() of its skeleton depth %r" % (pre, a, b)
+        if a is None or not (101 <= a <= 201): return "shape %r: first rejected depth %r is outside 101..201" % (pre, a)
+        got.append(a)
+    rec = DEPTH_RECORDED.get(tuple(sys.version_info[:2]))
+    if rec is not None and got != rec: return "first rejected depths %r differ from the recorded %r" % (got, rec)
+    return "ok"
+
+
+def strict_ref_law(s):
+    """SPDX proper: the idstring of a LicenseRef is not empty.  (Judgement call D37, see c19.py: scheduled only when registered.)"""
+    got = run(s)
+    if got is not None and gen_lic.empty_ref_tokens(s):
+        return "empty LicenseRef idstring accepted: %r -> %r" % (s, got)
     return "ok"
 
 
@@ -141,6 +184,13 @@ def observe(cmd, args):
                 deep = s.count("(") > 100
                 if not deep: return "layout/case changes the result: %r -> %r but %r -> %r" % (s, base, t, got)
         return "ok"
+    if cmd == "l.spec":
+        # not the implementation: the harness-side Python reading of the property, compared directly with the Coq specification
+        return gen_lic.spec_obs(args[0], IDS, EXCS)
+    if cmd == "law.l.evaldepth":
+        return depth_probe()
+    if cmd == "law.l.strictref":
+        return strict_ref_law(args[0])
     if cmd == "law.l.evalprobe":
         return eval_probe()
     if cmd == "law.l.lowerprobe":
